@@ -1,0 +1,101 @@
+//go:build verif
+
+// Package verifrt holds the run-time side of the verification contracts
+// (build tag verif only). The verification-condition generator treats these
+// functions as intrinsics; when a counterexample is replayed they run as
+// ordinary Go.
+package verifrt
+
+// Failure is one failed Assert recorded during a replay.
+type Failure struct{ Label string }
+
+// Failures collects failed assertions of the current replay.
+var Failures []Failure
+
+// AssumeFailed is panicked when a replayed input violates a precondition.
+type AssumeFailed struct{}
+
+// Assume states a precondition (or a hypothesis of a lemma).
+func Assume(c bool) {
+	if !c {
+		panic(AssumeFailed{})
+	}
+}
+
+// Assert states a postcondition (or the conclusion of a lemma).
+func Assert(label string, c bool) {
+	if !c {
+		Failures = append(Failures, Failure{Label: label})
+	}
+}
+
+// Cover marks a condition that must be reachable (vacuity guard).
+func Cover(label string, c bool) {}
+
+// sample values used when a quantifier is evaluated at run time (replay only;
+// the verifier treats Forall/Exists as real quantifiers).
+func samples[T any]() []T {
+	var out []T
+	var z T
+	out = append(out, z)
+	switch any(z).(type) {
+	case int:
+		for _, v := range []int{-2, -1, 1, 2, 3, 4, 5, 6, 7, 8, 15, 16, 31, 32, 63, 64, 255, 256} {
+			out = append(out, any(v).(T))
+		}
+	case int64:
+		for _, v := range []int64{-1, 1, 2, 3, 4, 5, 6, 7, 8} {
+			out = append(out, any(v).(T))
+		}
+	case uint64:
+		for _, v := range []uint64{1, 2, 3, 4, 5, 6, 7, 8} {
+			out = append(out, any(v).(T))
+		}
+	}
+	return out
+}
+
+// Forall is a universal quantifier.
+func Forall[T any](f func(T) bool) bool {
+	for _, v := range samples[T]() {
+		if !f(v) {
+			return false
+		}
+	}
+	return true
+}
+
+// Exists is an existential quantifier.
+func Exists[T any](f func(T) bool) bool {
+	for _, v := range samples[T]() {
+		if f(v) {
+			return true
+		}
+	}
+	return false
+}
+
+// Forall2 quantifies over two variables.
+func Forall2[A, B any](f func(A, B) bool) bool {
+	for _, a := range samples[A]() {
+		for _, b := range samples[B]() {
+			if !f(a, b) {
+				return false
+			}
+		}
+	}
+	return true
+}
+
+// Modifies declares that the called function may write *p (frame clause).
+func Modifies[T any](p *T) {}
+
+// ModifiesElems declares that the called function may write the elements of s.
+func ModifiesElems[T any](s []T) {}
+
+// Snap returns a ghost copy of s (a fresh backing array with the same contents).
+func Snap[T any](s []T) []T {
+	out := make([]T, len(s))
+	copy(out, s)
+	return out
+}
